@@ -320,6 +320,48 @@ def check_translation_cases(report, rule, tc, fq, roles, call):
 
 
 
+def check_inner_candidates_available(p, report, rule):
+    sq = p.get_method("SingleAnnotatorWrapper", "query")
+    if sq is None:
+        raise AnalysisError("SingleAnnotatorWrapper.query vanished")
+    roles = None
+    for n in ast.walk(sq.node):
+        if isinstance(n, ast.Assign) and isinstance(n.value, ast.Call) and c01.callname(n.value) == "_transform_cand_annot" \
+                and isinstance(n.targets[0], (ast.Tuple, ast.List)) and len(n.targets[0].elts) == 3:
+            roles = [e.id if isinstance(e, ast.Name) else None for e in n.targets[0].elts]
+    if roles is None or roles[2] is None:
+        raise AnalysisError("SingleAnnotatorWrapper.query: _transform_cand_annot unpacking vanished")
+    avail = roles[2]
+    masks = set()
+    for n in ast.walk(sq.node):
+        if isinstance(n, ast.Assign) and len(n.targets) == 1 and isinstance(n.targets[0], ast.Name) \
+                and avail in names_in(n.value) and any(isinstance(c, ast.Call) and (c01.callname(c) or "").split(".")[-1] in ("any", "sum")
+                                                        for c in ast.walk(n.value)):
+            masks.add(n.targets[0].id)
+    inner = [c for c in ast.walk(sq.node) if isinstance(c, ast.Call) and isinstance(c.func, ast.Attribute) and c.func.attr == "query"
+             and "strategy" in ast.unparse(c.func.value)]
+    if not inner:
+        raise AnalysisError("SingleAnnotatorWrapper.query: call of the wrapped strategy vanished")
+    ck = next((k.value for k in inner[0].keywords if k.arg == "candidates"), None)
+    defs = []
+    if isinstance(ck, ast.Name):
+        defs = [n.value for n in ast.walk(sq.node) if isinstance(n, ast.Assign)
+                and any(isinstance(t, ast.Name) and t.id == ck.id for t in n.targets)]
+    elif ck is not None:
+        defs = [ck]
+    flat = []
+    for d in defs:
+        flat += [d.body, d.orelse] if isinstance(d, ast.IfExp) else [d]
+    if not flat:
+        report.add(rule, sq.qual, "candidates of the wrapped strategy", f"{sq.file}:{inner[0].lineno}", False, detail="not found")
+    for d in flat:
+        okd = isinstance(d, ast.Subscript) and bool(names_in(d.slice) & masks)
+        report.add(rule, sq.qual, f"candidates `{norm_stmt(d, 50)}` have an available annotator", f"{sq.file}:{d.lineno}", okd,
+                   detail=f"selected by `{sorted(masks)[0] if masks else '?'}`" if okd else
+                   "samples without any available annotator are offered to the wrapped strategy: if it picks one, fewer pairs are "
+                   "reachable than the batch needs (same pair returned twice / IndexError / the former endless loop)")
+
+
 def check_assignment_capped(p, report, rule):
     """The number of annotators assigned to a chosen sample never exceeds the number available for
     it: every definition of the returned per-sample count is np.minimum(<available count>, ...)."""
@@ -355,6 +397,20 @@ def check_assignment_capped(p, report, rule):
                        "assigned more annotators than it has, the selection loop then falls through to another sample's pairs")
     if k == 0:
         raise AnalysisError("annotator-assignment helper: no definition of the per-sample count found")
+    # the number of pairs compared with the batch size is the sum of the (capped) per-sample counts
+    cmp_names = set()
+    for n in ast.walk(na.node):
+        if isinstance(n, (ast.If, ast.While)) and isinstance(n.test, ast.Compare) and "batch_size" in names_in(n.test):
+            cmp_names |= {x for x in names_in(n.test) if x != "batch_size"}
+    for nm in sorted(cmp_names):
+        for n in ast.walk(na.node):
+            if isinstance(n, ast.Assign) and any(isinstance(t, ast.Name) and t.id == nm for t in n.targets):
+                v = n.value
+                oks = isinstance(v, ast.Call) and c01.callname(v) in ("sum", "np.sum") and bool(names_in(v) & names)
+                report.add(rule, na.qual, f"pair count `{norm_stmt(n, 60)}` sums the capped counts", f"{na.file}:{n.lineno}", oks,
+                           detail="sum of the per-sample counts" if oks else
+                           "the number compared with the batch size is not the sum of the capped per-sample counts: the raising "
+                           "loop is skipped although fewer pairs are assigned than the batch needs (IndexError in the selection loop)")
 
 
 def avail_names_early(tc):
@@ -603,6 +659,21 @@ def run(p, report, tier):
                 "definition of the per-sample count in the annotator-assignment step is np.minimum(<available count>, ...)",
                 floor=2)
     check_assignment_capped(p, report, "R7.7")
+    report.rule("R7.8", "the multi-annotator base class and strategies partition labels with their own sentinel, never with "
+                "the NaN default (shared with C09 R9.1): `is_unlabeled(y)` without the sentinel sees no missing pair for "
+                "missing_label=-1", floor=3)
+    from ..common import Report as _Report
+    from . import c09 as _c09
+    sub9 = _Report("C09")
+    _c09.run(p, sub9, "quick")
+    for o in sub9.obligations:
+        if o.rule == "R9.1" and any(t in o.entity for t in ("MultiAnnotatorPoolQueryStrategy", "SingleAnnotatorWrapper",
+                                                             "IntervalEstimationThreshold", "IntervalEstimationAnnotModel")):
+            report.add("R7.8", o.entity, o.construct, o.loc, o.ok, detail=o.detail)
+    report.rule("R7.9", "the wrapped strategy is only offered samples that have an available annotator, on the index path and "
+                "on the feature-row path alike: every definition of the candidates handed to it is a selection by a mask "
+                "derived from the availability matrix", floor=2)
+    check_inner_candidates_available(p, report, "R7.9")
     for f in (sq, q, g, na, ie):
         if f is None:
             continue
